@@ -360,4 +360,38 @@ theorem chunked_op_lost_after_restart_cex :
     ((c.apply 5 0 2).1.apply 5 1 2).2 = true ∧ (((c.apply 5 0 2).1.restart).apply 5 1 2).2 = false := by
   decide
 
+/-! ### the leader-local clear of `Rollback` -/
+
+theorem lowest_le_mem (l : List Nat) (s : Nat) (h : s ∈ l) : ∃ m, lowest l = some m ∧ m ≤ s := by
+  induction l with
+  | nil => cases h
+  | cons a r ih =>
+    rcases List.mem_cons.mp h with rfl | hr
+    · cases hl : lowest r with
+      | none => exact ⟨s, by simp [lowest, hl], Nat.le_refl _⟩
+      | some b => exact ⟨min s b, by simp [lowest, hl], Nat.min_le_left _ _⟩
+    · obtain ⟨m, hm, hle⟩ := ih hr
+      exact ⟨min a m, by simp [lowest, hm], Nat.le_trans (Nat.min_le_right _ _) hle⟩
+
+/-- **Rollback's local clear keeps what every open transaction still needs.** `Rollback` removes its own start index
+from the active multiset (`completeTransaction`) and clears the leader's tracker below
+`min(raft applied, lowestActiveIndex())` of what REMAINS: that bound is at most the start index of every transaction
+still open — in particular of a sibling begun at the very same index — so no record such a transaction will be
+verified against (records above its start index) is dropped. -/
+theorem rollback_clear_keeps_open_windows (active : List Nat) (start raftApplied : Nat) :
+    ∀ s ∈ active.erase start, capLow raftApplied (lowest (active.erase start)) ≤ s := by
+  intro s hs
+  obtain ⟨m, hm, hle⟩ := lowest_le_mem _ s hs
+  rw [hm]
+  exact Nat.le_trans (Nat.min_le_right _ _) hle
+
+/-- **seeded change C09-4**: with the arithmetic of `lowestActiveIndexAfterCommit(start)` — which discounts one MORE
+transaction at `start`, the committing caller that is still registered there — applied AFTER the rolled-back transaction
+has already been removed, a sibling begun at the same index is discounted instead: two transactions at index 5, one
+rolls back, raft has applied 9 — the leader clears below 9 although the sibling still needs the records 6..8. -/
+theorem rollback_clear_after_commit_arith_cex :
+    ∃ (active : List Nat) (start raftApplied s : Nat), s ∈ active.erase start ∧
+      s < capLow raftApplied (lowest ((active.erase start).erase start)) :=
+  ⟨[5, 5], 5, 9, 5, by decide, by decide⟩
+
 end C09
